@@ -1,9 +1,100 @@
+/-
+BDS 4,4 meteorological routine air report: panic-freedom (C01), serialisation (C07) and physical
+ranges (C08) of `Bds44.read`, for every reader state (= every payload).
+Per-field facts are complete kernel enumerations of the field's code space.
+-/
 import Rs1090.Proofs.Decode.Wp
+import Rs1090.Proofs.Decode.Ser
+import Rs1090.Proofs.Decode.OkAnd
 import Rs1090.Model.Decode.Bds44
 namespace Rs1090.Model.Bds44
-open Rs1090 Rs1090.Model
+open Rs1090 Rs1090.Model Rs1090.Props.C13
 
-/-- STUB proof for the STUB reader (replaced together with the model) -/
-theorem read_noPanic : NoPanic read := by unfold read; exact noPanic_fail _
+/-! ### per-field facts -/
+
+theorem windSpeed_spec : ∀ st v, v < 2 ^ 9 → (windSpeed st v).okAnd (fun _ => true) = true := by
+  intro st
+  cases st <;> (refine enum 9 ?_; decide +kernel)
+
+/-- accepted wind direction: `n/256 < 360` -/
+theorem windDirection_spec (speed : Option Nat) : ∀ v, v < 2 ^ 9 →
+    (windDirection speed v).okAnd (optAll fun n => decide (n < 360 * 256)) = true := by
+  cases speed with
+  | none => refine enum 9 ?_; decide +kernel
+  | some x =>
+    intro v hv
+    simp only [windDirection, Option.isNone, Bool.false_eq_true, if_false, Outcome.okAnd, optAll, decide_eq_true_eq]
+    omega
+
+/-- accepted temperature: `-80 ≤ q/4 ≤ 60` -/
+theorem temperature_spec : ∀ sg v, sg < 2 ^ 1 → v < 2 ^ 10 →
+    (temperature sg v).okAnd (fun q => decide (-80 * 4 ≤ q) && decide (q ≤ 60 * 4)) = true := by
+  intro sg v hsg
+  rcases bit_cases hsg with rfl | rfl <;> revert v <;> (refine enum 10 ?_; decide +kernel)
+
+theorem pressure_spec : ∀ st v, v < 2 ^ 11 → (pressure st v).okAnd (fun _ => true) = true := by
+  intro st
+  cases st <;> (refine enum 11 ?_; decide +kernel)
+
+theorem turbulence_spec : ∀ st v, v < 2 ^ 2 →
+    (turbulence st v).okAnd (optAll fun j => j.wf && j.inRange) = true := by
+  intro st
+  cases st <;> (refine enum 2 ?_; decide +kernel)
+
+/-- accepted humidity: `n/64 ≤ 100` -/
+theorem humidity_spec : ∀ st v, v < 2 ^ 6 →
+    (humidity st v).okAnd (optAll fun n => decide (n ≤ 100 * 64)) = true := by
+  intro st
+  cases st <;> (refine enum 6 ?_; decide +kernel)
+
+/-! ### the reader -/
+
+/-- symbolic execution of `read` up to the final field list, keeping the per-field facts -/
+theorem read_good (s : Rd) : wp read (fun r _ => SerGood [] r ∧ RangeGood r) s := by
+  unfold read
+  wp_run
+  apply wp_lift_okAnd (windSpeed_spec _ _ (by assumption)); intro ws _
+  wp_run
+  apply wp_lift_okAnd (windDirection_spec ws _ (by assumption)); intro wd hwd
+  wp_run
+  apply wp_lift_okAnd (temperature_spec _ _ (by assumption) (by assumption)); intro temp htemp
+  wp_run
+  apply wp_lift_okAnd (pressure_spec _ _ (by assumption)); intro pres _
+  wp_run
+  apply wp_lift_okAnd (turbulence_spec _ _ (by assumption)); intro turb hturb
+  wp_run
+  apply wp_lift_okAnd (humidity_spec _ _ (by assumption)); intro hum hhum
+  wp_run
+  simp only [Bool.and_eq_true, decide_eq_true_eq] at htemp
+  constructor
+  · apply serGood_of
+    · keys_decide
+    · keys_decide
+    · fields_cases
+      exact wf_getD_of _ hturb
+  · apply rangeGood_of
+    range_cases
+    · exact holds_nonneg_getD_map_jnat _
+    · cases wd with
+      | none => exact holds_null _
+      | some n =>
+        simp only [optAll, decide_eq_true_eq] at hwd
+        exact holds_range_jrat 0 360 false n 256 (by decide) (by omega) (by simp; omega)
+    · exact holds_range_jrat _ _ _ _ _ (by decide) (by omega) (by simp; omega)
+    · exact inRange_getD_of _ hturb
+    · cases hum with
+      | none => exact holds_null _
+      | some n =>
+        simp only [optAll, decide_eq_true_eq] at hhum
+        exact holds_range_jrat 0 100 true n 64 (by decide) (by omega) (by simp; omega)
+
+theorem read_noPanic : NoPanic read :=
+  fun s => wp_mono (read_good s) (fun _ _ _ => trivial)
+
+theorem read_serGood (s : Rd) : wp read (fun r _ => SerGood [] r) s :=
+  wp_mono (read_good s) (fun _ _ h => h.1)
+
+theorem read_rangeGood (s : Rd) : wp read (fun r _ => RangeGood r) s :=
+  wp_mono (read_good s) (fun _ _ h => h.2)
 
 end Rs1090.Model.Bds44
